@@ -14,7 +14,15 @@ EXTENDS BIP32
 (* Object 1 is the master private key.  The lemma (CacheTransparent) is that  *)
 (* every object is what its path says, whatever was derived before, in what   *)
 (* order and through which copies: memoisation is not observable.             *)
-CONSTANTS KeyMode      \* "full" | "noHard" | "noWant": what the memo is keyed by (the latter two are wrong on purpose)
+(*   root    (ghost) which root object it descends from                       *)
+(* With TwoRoots a second root exists from the start (object 2): the master's  *)
+(* PUBLIC key under ANOTHER chain code - what a process holds after reading   *)
+(* an extended public key that shares the key and nothing else.  Nothing a    *)
+(* node answers may depend on what another object was asked: every answer is  *)
+(* the CKD of ITS node (ResultIsPure), every object what ITS root and path    *)
+(* say (CacheTransparent).                                                    *)
+CONSTANTS KeyMode,     \* "full" | "noHard" | "noWant" | "noChain": what the memo is keyed by (the latter three are wrong on purpose)
+          TwoRoots     \* BOOLEAN
 VARIABLES objs, res,   \* res: result of the last call: an object id, or 0 for a refusal
           pure         \* (ghost) what the last call returns by the memo-free definition: a node or Refused
 
@@ -22,9 +30,16 @@ CacheKey(x, ix, want) ==
   CASE KeyMode = "full"   -> <<ix.v, ix.h, Want(x, want)>>
     [] KeyMode = "noHard" -> <<ix.v, FALSE, Want(x, want)>>
     [] KeyMode = "noWant" -> <<ix.v, ix.h, "any">>
+    [] KeyMode = "noChain" -> <<ix.v, ix.h, Want(x, want)>>
 
-Obj(node, path, par, d, how) == [node |-> node, cache |-> {}, path |-> path, def |-> [par |-> par, node |-> d, how |-> how]]
-Cached(os, o, k) == {e \in os[o].cache : e[1] = k}
+Obj(node, path, par, d, how, root) == [node |-> node, cache |-> {}, path |-> path, root |-> root,
+                                       def |-> [par |-> par, node |-> d, how |-> how]]
+\* KeyMode "noChain" (wrong on purpose): public derivations are looked up in the memo of EVERY public object holding the same key,
+\* whatever its chain code - a process-wide memo filed under serP(K) || ser32(i)
+Cached(os, o, k) ==
+  IF KeyMode = "noChain" /\ ~IsPrivate(os[o].node)
+  THEN UNION {{e \in os[j].cache : e[1] = k} : j \in {jj \in 1..Len(os) : ~IsPrivate(os[jj].node) /\ os[jj].node.key = os[o].node.key}}
+  ELSE {e \in os[o].cache : e[1] = k}
 
 \* one derivation on object o of object list os: [objs, res]
 DeriveOn(os, o, ix, want) ==
@@ -35,11 +50,11 @@ DeriveOn(os, o, ix, want) ==
   ELSE LET r == Derive(x, ix, want) IN
        IF r = Refused THEN [objs |-> os, res |-> 0]
        ELSE [objs |-> Append([os EXCEPT ![o].cache = @ \cup {<<k, Len(os) + 1>>}],
-                             Obj(r, Append(os[o].path, ix), o, Derive(Lift(o, x), ix, want), <<"derive", ix, Want(x, want)>>)),
+                             Obj(r, Append(os[o].path, ix), o, Derive(Lift(o, x), ix, want), <<"derive", ix, Want(x, want)>>, os[o].root)),
              res |-> Len(os) + 1]
 
 \* a fresh public copy of o (never memoised)
-CopyOn(os, o) == [objs |-> Append(os, Obj(Neuter(os[o].node), os[o].path, o, Neuter(Lift(o, os[o].node)), <<"copy">>)), res |-> Len(os) + 1]
+CopyOn(os, o) == [objs |-> Append(os, Obj(Neuter(os[o].node), os[o].path, o, Neuter(Lift(o, os[o].node)), <<"copy">>, os[o].root)), res |-> Len(os) + 1]
 
 \* follow a list of indices from o, each child as its parent is; stop at a refusal
 RECURSIVE WalkOn(_, _, _)
@@ -59,7 +74,13 @@ PureWalk(x, path) == IF path = <<>> THEN x
 PureForPath(x, s) == LET y == PureWalk(x, PathIndices(s)) IN
                      IF y # Refused /\ HasDotPub(s) THEN Neuter(y) ELSE y
 
-SInit(seed) == objs = <<Obj(Master(seed), <<>>, 0, Master(seed), <<"master">>)>> /\ res = 1 /\ pure = Master(seed)
+\* the second root: the master's key under an unrelated chain code
+OtherChain == Sym("chain2", 32)
+Rechain(x) == [x EXCEPT !.chain = OtherChain]
+RootNode(seed, r) == IF r = 1 THEN Master(seed) ELSE Rechain(Master(seed))
+SInit(seed) == /\ objs = <<Obj(Master(seed), <<>>, 0, Master(seed), <<"master">>, 1)>>
+                         \o (IF TwoRoots THEN <<Obj(Neuter(Rechain(Master(seed))), <<>>, 1, Neuter(Rechain(Lift(1, Master(seed)))), <<"rechain">>, 2)>> ELSE <<>>)
+               /\ res = 1 /\ pure = Master(seed)
 SDerive(o, ix, want) == /\ Specified(objs[o].node, ix, want)
                         /\ LET d == DeriveOn(objs, o, ix, want) IN objs' = d.objs /\ res' = d.res
                         /\ pure' = Derive(objs[o].node, ix, want)
@@ -70,9 +91,14 @@ SForPath(o, s) == /\ IsPathString(s)
                   /\ pure' = PureForPath(objs[o].node, s)
 
 \* what an object must be: a function of its path and of being private or not
-Canonical(seed, path, private) == IF private THEN PrivPath(Master(seed), path) ELSE Neuter(PrivPath(Master(seed), path))
+Canonical(seed, r, path, private) == IF private THEN PrivPath(RootNode(seed, r), path) ELSE Neuter(PrivPath(RootNode(seed, r), path))
 CacheTransparentFor(seed) == \A o \in 1..Len(objs) :
-  objs[o].node = Canonical(seed, objs[o].path, IsPrivate(objs[o].node))
+  objs[o].node = Canonical(seed, objs[o].root, objs[o].path, IsPrivate(objs[o].node))
+\* the two roots really are different nodes with one key (otherwise the second root adds nothing)
+RootsDiffer(seed) == TwoRoots => /\ objs[2].node.key = PubKey(objs[1].node) /\ objs[2].node.chain # objs[1].node.chain
+                                 /\ \A ix \in {Idx(FALSE, 0), Idx(TRUE, 0)} :
+                                       /\ PubData(objs[2].node, ix) = PubData(Neuter(objs[1].node), ix)
+                                       /\ (~ix.h => CKDpub(objs[2].node, ix) # CKDpub(Neuter(objs[1].node), ix))
 \* the call returned what the memo-free definition returns
 ResultIsPure == IF res = 0 THEN pure = Refused ELSE pure # Refused /\ objs[res].node = pure
 \* the compact (one-step, named-parent) description of every object unfolds to the object
